@@ -493,6 +493,11 @@ theorem good_applyEv {c : Cfg} {s : LH} (h : Good c s) (e : Ev) (hwf : EvWF e) :
   | refresh id vs => exact good_onList h id _ (fun rl hr => dirty_good hr rfl rfl)
   | delete vs => exact good_delete h vs
   | read id pref => exact good_onList h id _ (fun rl hr => (rebuild_good hr pref).1)
+  | query vs =>
+    simp only [applyEv, queryCache]
+    split
+    · exact h
+    · exact good_getRemoteList h vs
 
 theorem good_history {c : Cfg} (evs : List Ev) (hwf : ∀ e ∈ evs, EvWF e) :
     ∀ s, Good c s → Good c (evs.foldl (applyEv c) s) := by
